@@ -32,7 +32,7 @@ func init() {
 }
 
 type c09cfg struct {
-	mode    int // 0 history, 1 dialing, 2 direct
+	mode    int // 0 history, 1 dialing, 2 direct, 3 id exhaustion
 	kind    TransportKind
 	L       int
 	callers int
@@ -48,7 +48,7 @@ func c09Setup(rc *RunCtx) simrt.Config {
 	r := rc.R
 	cfg, sname := drawSimConfig(r, 60000)
 	c := &c09cfg{}
-	c.mode = r.Weighted(3, 2, 2)
+	c.mode = r.Weighted(9, 6, 6, 1)
 	c.kind = []TransportKind{TkPipelineStream, TkPipelineDgram, TkReuse, TkTCP}[r.Weighted(3, 3, 1, 1)]
 	if c.mode != 0 && !c.kind.pipelined() {
 		c.kind = TkPipelineStream
@@ -78,7 +78,7 @@ func c09Setup(rc *RunCtx) simrt.Config {
 	c.pNoReply = []int{0, 20}[r.Choose(2)]
 	c.pDelay = []int{0, 50, 100}[r.Choose(3)]
 	rc.Cfg["strategy"] = sname
-	rc.Cfg["mode"] = []string{"history", "dialing", "direct"}[c.mode]
+	rc.Cfg["mode"] = []string{"history", "dialing", "direct", "id_exhaustion"}[c.mode]
 	rc.Cfg["kind"] = c.kind.String()
 	rc.Cfg["L"] = c.L
 	rc.Cfg["Lq"] = c.Lq
@@ -113,9 +113,102 @@ func c09Main(rc *RunCtx) {
 		c09History(rc, c, w)
 	case 1:
 		c09Dialing(rc, c, w)
-	default:
+	case 2:
 		c09Direct(rc, c, w)
+	default:
+		c09Exhaust(rc, c, w)
 	}
+}
+
+// c09Exhaust: one connection with a limit above 100 carries >= 100 unanswered
+// queries on consecutive wire IDs; the allocator is then put back at the start
+// of that block (the state after 65436 further queries), so that the next
+// queries find every candidate ID busy and are refused after having been
+// reserved. After everything was answered the connection must admit as many
+// reservations as a fresh one.
+func c09Exhaust(rc *RunCtx, c *c09cfg, w *W1) {
+	stream := c.kind.stream()
+	network := "udp"
+	if stream {
+		network = "tcp"
+	}
+	hold := make(chan struct{})
+	plan := func(sc *simnet.Conn, nth int, call *Call, wid uint16) Action {
+		return Action{HoldUntil: hold}
+	}
+	rc.Net.Handle(network, srvAddr, w.Serve(ServerOpts{Plan: plan}))
+	nc, err := rc.Net.Dial(context.Background(), network, srvAddr)
+	if err != nil {
+		panic(err)
+	}
+	L := 101 + simrt.Choose(30)
+	rc.Cfg["L"] = L
+	dc := transport.NewDnsConn(transport.TraditionalDnsConnOpts{WithLengthHeader: stream, IdleTimeout: time.Hour, MaxConcurrentQuery: L}, nc)
+	start := []uint16{0, 0xFFC0, uint16(simrt.Choose(65536))}[simrt.Choose(3)]
+	dc.VerifSetNextQid(start)
+	fresh := countReservations(dc)
+	if fresh != L {
+		rc.Fail("fresh_capacity_wrong", "a fresh connection with limit %d admitted %d reservations", L, fresh)
+		return
+	}
+	n := 100 + simrt.Choose(L-100)
+	done := make(chan struct{}, 256)
+	for i := 0; i < n; i++ {
+		i := i
+		call := w.NewCall(i, 0, uint16(i), 1)
+		rx, _ := dc.ReserveNewQuery()
+		if rx == nil {
+			rc.Fail("query_refused_below_limit", "query %d of %d refused on a healthy connection with limit %d", i, n, L)
+			return
+		}
+		simrt.GoNamed(fmt.Sprintf("held%d", i), func() {
+			ctx, cancel := context.WithTimeout(context.Background(), 30*time.Second)
+			call.Ctx, call.Started = ctx, true
+			r, err := rx.ExchangeReserved(ctx, call.Query)
+			cancel()
+			call.Done, call.Err = true, err
+			if err == nil {
+				call.Resp = append([]byte(nil), (*r)...)
+				w.CheckProvenance(call)
+			}
+			simrt.Send(0, done, struct{}{})
+		})
+	}
+	simrt.Sleep(0, 20*time.Millisecond)
+	if q, _ := dc.VerifQueueLen(); q != n {
+		rc.Inconcl = fmt.Sprintf("only %d of %d queries are queued", q, n)
+	}
+	k := 1 + simrt.Choose(4)
+	for j := 0; j < k && rc.Viol == nil; j++ {
+		dc.VerifSetNextQid(start)
+		simrt.Fault("wire_id_rewind")
+		rx, _ := dc.ReserveNewQuery()
+		if rx == nil {
+			continue
+		}
+		call := w.NewCall(200+j, 0, uint16(200+j), 1)
+		ctx, cancel := context.WithTimeout(context.Background(), 5*time.Millisecond)
+		_, err := rx.ExchangeReserved(ctx, call.Query)
+		cancel()
+		if err != nil && ctx.Err() == nil {
+			simrt.Probe("c09.refused_for_want_of_a_wire_id")
+		}
+	}
+	close(hold)
+	for i := 0; i < n; i++ {
+		simrt.Recv(0, done)
+	}
+	simrt.Sleep(0, 100*time.Millisecond)
+	if rc.Viol == nil && !dc.IsClosed() {
+		q, rsv := dc.VerifQueueLen()
+		if q != 0 || rsv != 0 {
+			rc.Fail("counter_not_zero_at_quiescence", "after every query was answered or refused the connection reports queued=%d reserved=%d", q, rsv)
+		} else if got := countReservations(dc); got != fresh {
+			rc.Fail("capacity_lost", "a used-then-quiescent connection admits %d reservations, a fresh one %d", got, fresh)
+		}
+		simrt.Probe("c09.exhaust_probe")
+	}
+	dc.Close()
 }
 
 func c09History(rc *RunCtx, c *c09cfg, w *W1) {
@@ -453,7 +546,7 @@ func c09Direct(rc *RunCtx, c *c09cfg, w *W1) {
 // countReservations reserves until refusal, then withdraws everything.
 func countReservations(dc *transport.TraditionalDnsConn) int {
 	var rs []transport.ReservedExchanger
-	for i := 0; i < 100; i++ {
+	for i := 0; i < 1000; i++ {
 		rx, _ := dc.ReserveNewQuery()
 		if rx == nil {
 			break
